@@ -1,5 +1,7 @@
 import PlzVerif.Base.Proto
 import PlzVerif.Model.Sched
+import PlzVerif.Lemmas.SchedFacts
+import PlzVerif.Generated.C04
 /-!
 Driver for C05: replays an observed action log through the scheduler model as an acceptor (as for C04) and
 computes, from the case alone, whether the invocation must fail: a requested target or one of its transitive
@@ -8,7 +10,8 @@ dependencies has a failing command, an undefined dependency, lives in a package 
 
   trace deps=0:;1:0 pk=.. roots=.. n=.. kg=.. fail=.. bad=.. miss=.. ev=S0,E0,S1,E1 rc=0
 
-Every state change goes through `fire` (so an accepted trace is an execution of the model).  For `S t` the
+Every state change goes through `fireG` at the wait-loop fact extracted from /repo on this run, which is `fire` for
+the pinned code (`C04_driver_runs_the_model`), so an accepted trace is an execution of the model.  For `S t` the
 driver fires, one at a time, the enabled actions that lead to `build.Build(t)` starting: activation of `t`,
 the steps of `t`'s building queuer (each `waitDeps` step is enabled only if that dependency has finished and
 takes the DependencyFailed branch if it failed), the dispatch of the task and `workerStart`; the event is
@@ -24,6 +27,7 @@ structure Case where
   pk : List Nat := []
   failing : List Nat := []      -- targets with fail=exit or fail=undef
   badPkgs : List Nat := []      -- bad ++ miss
+  warm : Bool := false          -- second invocation on a built repository: unchanged targets complete without events
 
 def parseInts (s : String) : Option (List Nat) := if s = "-" || s = "" then some [] else (s.splitOn ",").mapM String.toNat?
 
@@ -90,7 +94,11 @@ def parseCase (line : String) : Option Case := do
   let failing ← parseFailing (← field kv "fail")
   if roots.isEmpty || roots.any (· ≥ n) || deps.any (·.any (· ≥ n)) || ev.any (·.2 ≥ n) || pk.length != n
       || failing.any (· ≥ n) then none
-  pure ⟨deps, roots, ev, rc, pk, failing, bad ++ miss⟩
+  let warm := (field kv "warm").getD "0" == "1"
+  pure ⟨deps, roots, ev, rc, pk, failing, bad ++ miss, warm⟩
+
+/-- the wait loop as extracted from /repo on this run (none for the pinned code) -/
+def waitSkipRank : Option Nat := Facts.skipOf PlzVerif.Generated.C04.waitSkip
 
 def cfgOf (c : Case) : Cfg := ⟨c.deps.length, fun t => (c.deps[t]?).getD [], true⟩
 
@@ -118,14 +126,14 @@ def driveStart (c : Cfg) (t : Nat) : Nat → St → Option St
     | none => none
     | some none => some s
     | some (some a) =>
-      match fire c s a with
+      match fireG c waitSkipRank s a with
       | some s' => driveStart c t f s'
       | none => none
 
 def finishWorker (c : Cfg) (s : St) (t : Nat) (ok : Bool) : Option St := do
   let w ← findIdx s.nextW (fun w => s.ws w == some ⟨t, .building⟩)
-  let s1 ← fire c s (if ok then .workerOk w .built false else .workerFail w)
-  fire c s1 (.workerDone w)
+  let s1 ← fireG c waitSkipRank s (if ok then .workerOk w .built false else .workerFail w)
+  fireG c waitSkipRank s1 (.workerDone w)
 
 def depsOf (cs : Case) (t : Nat) : List Nat := (cs.deps[t]?).getD []
 
@@ -148,6 +156,19 @@ def mustFail (cs : Case) : Bool :=
     | some p => cs.badPkgs.contains p || selfPkgs.contains p
     | none => false
 
+/-- warm cases: bring an up-to-date dependency (no event in the log, not failing) to Built without events, its own
+    dependencies first; `none` if the model does not allow it (e.g. one of its dependencies failed) -/
+def silentBuild (c : Cfg) (eligible : Nat → Bool) (deps : Nat → List Nat) (fuel : Nat) : Nat → St → Nat → Option St
+  | 0, _, _ => none
+  | k + 1, s, d =>
+    if s.fin d then some s else
+    if !eligible d then none else do
+      let s1 ← (deps d).foldlM (fun acc x => silentBuild c eligible deps fuel k acc x) s
+      let s2 ← driveStart c d fuel s1
+      let w ← findIdx s2.nextW (fun w => s2.ws w == some ⟨d, .building⟩)
+      let s3 ← fireG c waitSkipRank s2 (.workerOk w .unchanged true)
+      fireG c waitSkipRank s3 (.workerDone w)
+
 def showList (l : List Nat) : String := if l.isEmpty then "-" else ",".intercalate (l.map toString)
 
 def replay (cs : Case) : String :=
@@ -159,7 +180,13 @@ def replay (cs : Case) : String :=
     | (k, t) :: r, pos, s =>
       if k == 'S' then
         if s.starts t != 0 then .error s!"rejected at {pos}: second start of {t}" else
-        match driveStart c t fuel s with
+        -- warm: dependencies that are up to date finish without events (as far as the model lets them)
+        let started := cs.events.filterMap fun e => if e.1 == 'S' then some e.2 else none
+        let eligible := fun d => cs.warm && !cs.failing.contains d && !started.contains d
+        let s0 := if cs.warm then
+            (c.deps t).foldl (fun acc d => (silentBuild c eligible c.deps fuel (n + 1) acc d).getD acc) s
+          else s
+        match driveStart c t fuel s0 with
         | some s' => go r (pos + 1) s'
         | none => .error s!"rejected at {pos}: start of {t} is not enabled"
       else if k == 'E' || k == 'F' then
@@ -170,7 +197,8 @@ def replay (cs : Case) : String :=
   match go cs.events 0 St.init with
   | .error e => e
   | .ok s =>
-    let built := (List.range n).filter fun t => s.fin t && (s.st t).isBuilt
+    let ended := cs.events.filterMap fun e => if e.1 == 'E' then some e.2 else none
+    let built := (List.range n).filter fun t => s.fin t && (s.st t).isBuilt && ended.contains t
     let failed := (List.range n).filter fun t => s.st t == .failed
     let rc := if mustFail cs then "nz" else "0"
     let real := if cs.rc == 0 then "0" else "nz"
